@@ -1,6 +1,6 @@
 """Reusable rule kinds (K1, K2, K4, K5 ...) over the fact base.  Each helper records
 obligations on a Report and returns what it matched so callers can apply floors."""
-from .core import cname, walk, ap, show, strip_targs, strip_not, eff_cond
+from .core import cname, walk, ap, show, strip_targs, strip_not, eff_cond, implied_atoms
 from .flow import Flow
 
 
@@ -114,12 +114,19 @@ def branch_blocks(func, cond_pred):
         if not term or len(b['succ']) != 2 or term.get('c') in ('SwitchStmt', 'CXXTryStmt', 'CXXForRangeStmt'):
             continue
         c = eff_cond(term)
-        e, pol = strip_not(c)
-        if e is not None and cond_pred(e):
-            t, f = b['succ'][0], b['succ'][1]
-            if not pol:
-                t, f = f, t
-            out.append((bid, pol, t, f))
+        hit = None
+        for truth in (True, False):
+            for atom, tv in implied_atoms(c, truth):
+                e, pol = strip_not(atom)
+                if e is not None and cond_pred(e) and hit is None:
+                    hit = (truth, tv == pol)
+        if hit is None:
+            continue
+        s_true, s_false = b['succ'][0], b['succ'][1]
+        side_succ = s_true if hit[0] else s_false
+        other = s_false if hit[0] else s_true
+        t, f = (side_succ, other) if hit[1] else (other, side_succ)
+        out.append((bid, hit[1] == hit[0], t, f))
     return out
 
 
